@@ -2105,10 +2105,11 @@ def gaussian_cases(ctx, cuqi, state, cases, stats):
             for gk in ["scalar", "vector", "spdiag", "densefull"]:
                 if gk == "densefull" and not ctx.thorough and not (n == thr + 1 or (n == thr and form == "cov")):
                     continue                # quick: every form just above the switch (sparse branch), one just below
-                if gk != "densefull" and not ctx.thorough and (list(GFORMS).index(form) + n) % 2:
-                    continue                # quick: two of the four forms per (dim, kind), alternating with the dimension, so that every (form, kind)
-                                            # is evaluated on both sides of the default switch (thr-1 or thr; thr+1 or thr+2); all of them in thorough,
-                                            # and at small dimensions (threshold lowered through cuqi.config) in gaussian_switch_cases
+                if gk != "densefull" and not ctx.thorough and (list(GFORMS).index(form) + n + len(gk)) % 4 != {"scalar": 0, "vector": 1, "spdiag": 2}[gk]:
+                    continue                # quick: ONE of the four forms per (dim, kind), rotating with the dimension: every kind and every form is
+                                            # evaluated on both sides of the default switch (thr-1, thr | thr+1, thr+2), every (form, kind) pair once;
+                                            # all 48 of them in thorough, and every (form, kind, side) at small dimensions with the threshold lowered
+                                            # through cuqi.config in gaussian_switch_cases (quick tier).  (77 terms with ln / sqrt cost 2-3 s each.)
                 mean = pt(1) if (n + len(gk)) % 2 == 0 else pt(n)
                 meta = {"kind": "gaussian", "form": form, "gkind": gk, "dim": n, "mean": mean, "via": "direct", "method": "logpdf", "x": pt(n)}
                 if gk == "scalar":
